@@ -358,7 +358,14 @@ def cosim_one(args):
                 for op in ops:
                     try:
                         if op == 'open':
-                            ch = conn.channel(rpc_timeout=2)
+                            t0 = st['sched'].now
+                            try:
+                                ch = conn.channel(rpc_timeout=2)
+                            finally:
+                                # the broker answers at once: whether a number is handed out or exhaustion is reported, the call
+                                # does not sit on the connection lock (virtual milliseconds)
+                                if st['sched'].now - t0 > 1500:
+                                    out['errors'].append(('open-blocked', st['sched'].now - t0))
                             mine.append(ch)
                             results.append(('opened', ch.channel_id))
                         elif op == 'close' and mine:
@@ -531,6 +538,11 @@ def check(rep):
                 rep.violation('C10/out-of-range', 'allocated id %d with channel_max %d' % (i, sc['max']), replay)
         if r['abort'] != 'all application threads finished':
             rep.violation('C10/run-did-not-finish:%s' % r['abort'], 'scenario ended with %s' % r['abort'], replay)
+        for e in r.get('errors', []):
+            if e[0] == 'open-blocked':
+                rep.violation('C10/channel-call-blocks', 'connection.channel() took %d virtual ms although the broker answers at once (it neither '
+                              'handed out a number nor reported exhaustion promptly)' % e[1], replay)
+                break
         start = len(lines)
         lines += r['lines']
         expect += [None] * len(r['lines'])
